@@ -14,7 +14,7 @@
 //   NEAR-INTEGER f   the constructor's integer / non-integer decision (only an exactly integral f may restart the phase counter every fs samples):
 //                    f = k + d, k in {0, +-1, +-7, +-(fs/2 - 1), +-fs/4, +-fs/2 (inwards), random}, d in {+-1 ulp of k, +-1e-12, +-1e-9, +-1e-7, +-5e-7,
 //                    +-1e-6, +-1e-5, +-1e-3}, fs in {8, 100, 1000, 8000} (thorough: + 9, 4099, random), streams of 3 .. 50 fs (small offsets at small
-//                    rates: up to 25000 fs, so that a lag of 2 pi d per period would exceed the bound many times), any framing, EVERY sample against
+//                    rates: up to 8000 fs, so that a lag of 2 pi d per period would exceed the bound many times), any framing, EVERY sample against
 //                    exp(2 pi i f k/fs) with f k/fs reduced exactly, same bound as above; + one 2^24 (thorough: 2^31) sample stream of this class.
 //   OBJECT LIFETIME copies of HilbertFilter / Tuner / Delay (copy-construction, copy-assignment over a live object, elements of vector(n, obj),
 //                    by-value lambda capture, copy of a copy, destroyed copy, self-assignment, moved copy, assignment from an own copy), taken
@@ -1143,7 +1143,7 @@ static void run_near_integer(bool thorough, vh::Rng& rng) {
                 // 3 .. 50 multiples of fs; for the smallest offsets as many periods as make a restart visible (2 pi |d| periods >= 5e-8), within a sample budget
                 int periods = fs >= 8000 && !thorough ? rng.range(3, 12) : rng.range(3, 50);
                 const double d = std::fabs(f - double(k));
-                if (d > 0 && d < 1e-8 && fs <= 1000) {
+                if (di >= 2 && d < 1e-8 && fs <= 1000) {   // (one ulp of k is below the rounding of the phase itself: no stream length makes it visible to the ORACLE; CORR ties it)
                     const double need = std::ceil(5e-8 / (6.283185307179586 * d));
                     const long long cap = (thorough ? 1000000LL : 200000LL) / fs;
                     periods = int(std::max<double>(periods, std::min<double>(double(cap), need)));
